@@ -9,6 +9,12 @@ for f in sys.argv[1:]:
     for mid, r in sorted(ev.items()):
         prop, i = mid.split("-")
         wt = "/tmp/wt_%s/seeded_out" % prop
+        if r.get("wt"):
+            wt, i = os.path.join(r["wt"], "seeded_out"), str(r["i"])
+        if not os.path.exists(os.path.join(wt, "patch_%s.diff" % i)):
+            if os.path.exists(os.path.join(V, "seeded", mid, "meta.json")):
+                print("kept (worktree gone):", mid)
+            continue
         if r.get("error") or r.get("demo_clean_rc") != 0 or r.get("demo_patched_rc") in (0, None) or "45 passed" not in r.get("tests", ""):
             print("SKIP (not confirmed):", mid, r.get("error"), r.get("tests"), r.get("demo_clean_rc"), r.get("demo_patched_rc"))
             continue
